@@ -138,5 +138,66 @@ func genScopeSites(dir string) error {
 		}
 	}
 	fmt.Fprintf(&b, "/-- scope operations in any other function of parser.go, expression.go, scope.go -/\ndef scopeSitesElsewhere : List String := %s\n", leanStrList(others))
+	// break and return: what parseBreakStatement and parseReturnStatement consult
+	var loopKinds, retConds, scopeCtors []string
+	walksOuter := false
+	if fd := files[0].funcDecl("inLoop"); fd != nil {
+		ast.Inspect(fd.Body, func(n ast.Node) bool {
+			switch x := n.(type) {
+			case *ast.CaseClause:
+				for _, e := range x.List {
+					loopKinds = append(loopKinds, exprString(e))
+				}
+			case *ast.ForStmt:
+				if x.Post != nil {
+					if as, ok := x.Post.(*ast.AssignStmt); ok && len(as.Rhs) == 1 && exprString(as.Lhs[0]) == "s" && exprString(as.Rhs[0]) == "s.outer" {
+						walksOuter = true
+					}
+				}
+			}
+			return true
+		})
+	}
+	if fd := find("parseReturnStatement"); fd != nil {
+		ast.Inspect(fd.Body, func(n ast.Node) bool {
+			if sw, ok := n.(*ast.SwitchStmt); ok && sw.Tag == nil {
+				for _, c := range sw.Body.List {
+					if cc, ok := c.(*ast.CaseClause); ok {
+						for _, e := range cc.List {
+							retConds = append(retConds, exprString(e))
+						}
+					}
+				}
+			}
+			return true
+		})
+	}
+	brkCalls := []string{}
+	if fd := find("parseBreakStatement"); fd != nil {
+		ast.Inspect(fd.Body, func(n ast.Node) bool {
+			if c, ok := n.(*ast.CallExpr); ok && exprString(c.Fun) == "inLoop" && len(c.Args) == 1 {
+				brkCalls = append(brkCalls, "inLoop("+exprString(c.Args[0])+")")
+			}
+			return true
+		})
+	}
+	for _, g := range files {
+		for _, d := range g.file.Decls {
+			fd, ok := d.(*ast.FuncDecl)
+			if !ok || fd.Body == nil {
+				continue
+			}
+			ast.Inspect(fd.Body, func(n ast.Node) bool {
+				if c, ok := n.(*ast.CallExpr); ok && exprString(c.Fun) == "newScopeWithReturnType" && len(c.Args) == 3 {
+					scopeCtors = append(scopeCtors, fd.Name.Name+": "+exprString(c.Args[2]))
+				}
+				return true
+			})
+		}
+	}
+	fmt.Fprintf(&b, "\n/-- parser.go inLoop: the node kinds that make a scope a loop, and whether the whole chain is walked -/\ndef inLoopKinds : List String := %s\ndef inLoopWalksOuter : Bool := %v\n", leanStrList(loopKinds), walksOuter)
+	fmt.Fprintf(&b, "/-- parseBreakStatement: its calls of inLoop -/\ndef breakConsults : List String := %s\n", leanStrList(brkCalls))
+	fmt.Fprintf(&b, "/-- parseReturnStatement: the conditions of its verdict, in order -/\ndef returnConds : List String := %s\n", leanStrList(retConds))
+	fmt.Fprintf(&b, "/-- every construction of a scope with a result type: function, what it passes -/\ndef scopeReturnTypes : List String := %s\n", leanStrList(scopeCtors))
 	return writeGen(dir, "ScopeSites", b.String())
 }
